@@ -35,6 +35,7 @@ type scriptedReader struct {
 	budget   int // bytes delivered before permanent failure; <0 = never fails
 	chunking int // 0 all at once, 1 one byte at a time, 2 seeded splits, 3 zero-length reads interleaved
 	consumed int
+	fill     int // 0 seeded bytes, 1 every byte 0xff (a first candidate that is out of range, should the implementation redraw), 2 every byte zero
 	failed   bool
 	reads    int
 	tick     int
@@ -68,6 +69,16 @@ func (s *scriptedReader) Read(p []byte) (int, error) {
 		n = s.budget - s.consumed
 	}
 	s.src.Read(p[:n])
+	switch s.fill {
+	case 1:
+		for i := range p[:n] {
+			p[i] = 0xff
+		}
+	case 2:
+		for i := range p[:n] {
+			p[i] = 0
+		}
+	}
 	s.consumed += n
 	return n, nil
 }
@@ -547,13 +558,13 @@ func c13Faults(c *core.Ctx, curve elliptic.Curve) {
 				}
 				reps := c.Pick(3, 12)
 				for rep := 0; rep < reps; rep++ {
-					rd := &scriptedReader{src: c.CaseRng(), budget: f, chunking: chunking}
+					rd := &scriptedReader{src: c.CaseRng(), budget: f, chunking: chunking, fill: rep % 3}
 					c.Eval(1)
 					c.Note(fmt.Sprintf("%s %s fault=%d chunking=%d", name, e.name, f, chunking))
 					var err error
 					var outNil bool
 					pan, pv, where := core.Guard(func() { err, outNil = e.call(rd) })
-					d := map[string]any{"curve": name, "entry": e.name, "fault_after_bytes": f, "chunking": chunking, "consumed": rd.consumed, "reader_failed": rd.failed, "need": need}
+					d := map[string]any{"curve": name, "entry": e.name, "fault_after_bytes": f, "chunking": chunking, "fill": []string{"seeded", "0xff", "zero"}[rd.fill], "consumed": rd.consumed, "reader_failed": rd.failed, "need": need}
 					key := fmt.Sprintf("%s:fault:%s", name, e.name)
 					if pan {
 						c.Violation(key+":panic:"+where, "panic under a failing entropy reader: "+pv, d)
